@@ -175,10 +175,16 @@ func DecodePng(r io.ReadSeeker) (exif2.Exif, error) {
 		return exif2.Exif{}, err
 	}
 
+	// decode through a buffered reader, as for every other container, so that
+	// values larger than the Exif reader's scratch buffer are read
+	rr := readerPool.Get().(*bufio.Reader)
+	rr.Reset(r)
+	defer readerPool.Put(rr)
+
 	ir := exif2.NewIfdReader(exif2.Logger)
 	defer ir.Close()
 
-	if err := ir.DecodeTiff(r, header); err != nil {
+	if err := ir.DecodeTiff(rr, header); err != nil {
 		return ir.Exif, err
 	}
 
